@@ -564,6 +564,8 @@ IdsOf(fam) ==
                       <<"C", "f", "minmax", "h4", "none", "B">>, <<"C", "f", "limits", "h5", "none", "B">>,
                       <<"C", "f", "minmax", "h5", "none", "B">>,
                       <<"C", "i", "limits", "h0", "fixed", "X">>, <<"D">>}
+    [] fam = "C0" -> {<<"C", "f", "minmax", "h1", "none", "X">>, <<"C", "f", "limits", "h1", "none", "M">>,   \* one per class layout
+                      <<"C", "f", "minmax", "h3", "none", "D">>, <<"C", "f", "limits", "h5", "none", "B">>, <<"D">>}
     [] fam = "C2" -> UNION {{<<"C", d, lk, h, drv, lv>> : d \in {"f", "i"}, lk \in {"minmax", "limits", "max"},
                                                        h \in HooksFor[lv], drv \in {"none", "fixed"}}
                             : lv \in DOMAIN HooksFor}
